@@ -301,6 +301,10 @@ func universeMirror(res *core.Result, r *rand.Rand) {
 // is missing; it completes the first (whose key derivation uses up the shared key-exchange state), closes it, and
 // only then completes the second. Whatever link the router under test registers for the second connection must
 // be a working, sealed link: a frame sent over it must not cross the wire in clear.
+// DoubleDial is doubleDial for the link-layer check (C05 runs it as well: its last step is C05's own clause, "no
+// payload in clear on the wire after the handshake", on a link that came up under concurrent setups).
+func DoubleDial(res *core.Result, r *rand.Rand) { doubleDial(res, r) }
+
 func doubleDial(res *core.Result, r *rand.Rand) {
 	idV, idB := env.NewIdentity(r, nil), env.NewIdentity(r, nil)
 	for round := 0; round < 3; round++ {
